@@ -18,7 +18,7 @@ B_THOROUGH = B_QUICK + ['x64-soft', 'x64-alt1', 'x64-alt2', 'x64-aesni-all', 'a6
 
 REGISTRY = {
     'C17': dict(module='c17', level='other', technique='dispatch-shape rule over resolved MIR; per-lane term equality / key-lane dependence by global value numbering; mix-column inverse and round-consistency identities for the bitsliced implementation in bit-level canonical form',
-                quick=['x64-all', 'x64-soft-all', 'x64-soft-aesni-all'], thorough=['x64-all', 'x64-soft-all', 'x64-soft-aesni-all', 'x64-aesni-all', 'x64-alt1-all', 'a64-all', 'a64-soft-all', 'x86-all', 'x86-alt1-all']),
+                quick=['x64-all', 'x64-soft-all', 'x64-soft-aesni-all', 'x64-alt1-all'], thorough=['x64-all', 'x64-soft-all', 'x64-soft-aesni-all', 'x64-aesni-all', 'x64-alt1-all', 'a64-all', 'a64-soft-all', 'x86-all', 'x86-alt1-all']),
     'C04': dict(module='c04', level='other', technique='override-discipline and InOut dataflow rules; per-lane term equality (global value numbering, bit-level canonical form for fixslice) of parallel and single-block routines',
                 quick=['x64', 'x64-soft', 'x64-alt1'], thorough=['x64', 'x64-soft', 'x64-alt1', 'x64-alt2', 'a64', 'a64-soft-all', 'x86', 'x86-soft-all', 'x86-alt1-all']),
     'C03': dict(module='c03', level='other', technique='normalised-MIR equality across feature sets; global value numbering across the serpent_no_unroll and aes_compact configurations (bit-level canonical form)',
@@ -34,7 +34,7 @@ REGISTRY = {
     'C18': dict(module='c18', level='other', technique='abstract interpretation of belt_wblock_enc/dec: every short length (store-free rejection), all lengths >= 32 at once with a relational (linear-term + interval) length; global value numbering against the reference round',
                 quick=['x64', 'x64-all'], thorough=['x64', 'x64-all', 'a64', 'x86']),
     'C20': dict(module='c20', level='proof', technique='abstract interpretation of monomorphic MIR (intervals x known-bits, constant propagation with unrolling) discharging every panic edge',
-                quick=['x64', 'x64-soft', 'x64-alt1'], thorough=['x64', 'x64-soft', 'x64-alt1', 'x64-alt2', 'a64', 'x86', 'x86-alt1-all']),
+                quick=['x64', 'x64-soft', 'x64-alt1', 'x64-alt2'], thorough=['x64', 'x64-soft', 'x64-alt1', 'x64-alt2', 'a64', 'a64-soft-all', 'x86', 'x86-soft-all', 'x86-alt1-all']),
     'C11': dict(module='c11', level='proof', technique='abstract interpretation of every constructor for every key length 0..=300 and [301, usize::MAX]; global value numbering for padding equivalence',
                 quick=['x64'], thorough=['x64', 'x64-soft', 'x64-alt1', 'x64-alt2', 'a64', 'x86']),
     'C19': dict(module='c19', level='proof', technique='use analysis of `self` + string constant propagation over formatting MIR (static analysis)',
